@@ -81,6 +81,16 @@ def shard(shard_no, nshards, seed, tier, extra):
     rdir = os.path.join(common.VERIF, "corpus", "regress")
     for p in sorted(glob.glob(os.path.join(rdir, "*.hex"))):
         regress.append(bytes.fromhex(open(p).read().strip()))
+    # every operator x operand shape as a 30 000-deep chain through the whole pipeline with the default configuration
+    combos = [(op, sh) for op in progs.DEEP_CHAIN_OPS for sh in progs.DEEP_CHAIN_SHAPES]
+    for ci, (op, sh) in enumerate(combos):
+        if ci % nshards != shard_no or (tier == "quick" and sh == "const-below" and op in ("ISZERO", "NOT")):
+            continue
+        code, feats = progs.deep_chain(rng, op=op, shape=sh, n=30000 if tier == "quick" else rng.choice([30000, 60000]))
+        req = {"op": "analyze", "code": code.hex(), "stage": "analyze", "cfg": {"permissive": True},
+               "wd": {"every": 100, "stop_at": 3_000_000}}
+        resp = drivers["rel"].call(req, timeout=300)
+        judge(res, code, req, "rel", feats, resp)
     for i in range(n):
         r = rng.random()
         if i < len(regress) and shard_no == 0:
@@ -90,18 +100,24 @@ def shard(shard_no, nshards, seed, tier, extra):
             if rng.random() < 0.02:
                 ln = 24576
             code, feats = bytes(rng.getrandbits(8) for _ in range(ln)), {"random-bytes"}
-        elif r < 0.54:
+        elif r < 0.50:
             code, f = progs.sinks(rng, B + [len(B)])
             feats = {"sinks"} | f
+        elif r < 0.54:
+            code, f = progs.deep_chain(rng)
+            feats = {"deep-chain"}
         elif r < 0.58:
             code, f = progs.every_producer(rng)
             feats = {"every-producer"}
         elif r < 0.6:
             code, f = progs.typed_widths(rng)
             feats = {"typed-widths"}
-        elif r < 0.62:
+        elif r < 0.61:
             code, f = progs.cyclic_types(rng)
             feats = {"cyclic-types"}
+        elif r < 0.62:
+            code, f = progs.deep_chain(rng)
+            feats = {"deep-chain"}
         elif r < 0.7:
             code, feats = progs.mask_shift(rng)
             feats = {"mask-shift"} | feats
